@@ -519,6 +519,51 @@ pub fn c15(run: &mut Run) {
         vec![],
         0.0,
     );
+    // ---- in-process tier: the macro's own parser/expander on generated sentences (no compilation)
+    let unreadable = std::sync::atomic::AtomicU64::new(0);
+    run.prop_factory(
+        "c15_inprocess",
+        "proptest (with shrinking): the same sentence grammar fed directly to the macro's parser and expander (macros/src/fn_timeline.rs included by path); the expansion is read back as a builder method chain (syn) and compared with the documented reading: setters present iff the argument was written, durations/delays/positions within 2 ulp of the real value, repeat/reverse/easing equal, keyframes in written order with exactly the written fields and values, merged lists member by member in order; non-trivial = >= 3 argument kinds or a merged list",
+        &["merged_list", "unreadable_expansion"],
+        c15_strategy,
+        run.tier.pick(300_000, 3_000_000),
+        |c: &C15Case, obs: &mut mv_engine::Obs| {
+            obs.label_if(0, c.sentences.len() > 1);
+            match crate::inproc::check_case(c) {
+                Err(e) if e.starts_with("UNREADABLE") => {
+                    unreadable.fetch_add(1, std::sync::atomic::Ordering::Relaxed);
+                    obs.label(1);
+                    obs.skipped += 1;
+                    Ok(())
+                }
+                r => {
+                    obs.judged += 1;
+                    obs.nontrivial = nontrivial(c);
+                    r
+                }
+            }
+        },
+    );
+    if unreadable.load(std::sync::atomic::Ordering::Relaxed) > 0 {
+        run.health_fail(format!("c15_inprocess: {} expansions could not be read back as a builder chain (inconclusive, not a violation)", unreadable.load(std::sync::atomic::Ordering::Relaxed)));
+    }
+    run.prop_factory(
+        "c15_inprocess_rejection",
+        "proptest: a generated sentence, one of its one-token ill-formed mutants (kinds as in c15_rejection); the macro's parser/expander must return an error; non-trivial = every case (each is an ill-formed sentence); distinct = hash of the mutant",
+        &[],
+        || {
+            (sentence_strategy(false, false), any::<u16>(), any::<u16>()).prop_map(|(s, sel, pick)| {
+                let ms = mutants(&s, sel);
+                ms[mv_engine::pick_idx(pick, ms.len())].clone()
+            })
+        },
+        run.tier.pick(300_000, 3_000_000),
+        |m: &Mutant, obs: &mut mv_engine::Obs| {
+            obs.judged += 1;
+            obs.nontrivial = true;
+            crate::inproc::check_mutant(m)
+        },
+    );
     for k in ["merged_list", "ms_unit", "after", "nx", "float_percent", "non_ascending_keyframes"] {
         if labels.get(k).copied().unwrap_or(0) * 20 < all_cases {
             run.health_fail(format!("c15 generator: class {k} on fewer than 5% of cases"));
